@@ -827,7 +827,7 @@ def u_misc(ctx, u):
         cases.append(('x>=p', v & M256, G[1], -1))
         cases.append(('y>=p', G[0], v & M256, -1))
     cases += [('(0,0)', 0, 0, 0), ('(0,1)', 0, 1, -1), ('(1,0)', 1, 0, -1), ('(p-1,p-1)', P - 1, P - 1, -1)]
-    y0 = E.sqrt_p(B)
+    y0 = E.sqrt_p(E.B)
     if y0 is not None:
         cases.append(('x=0 on curve', 0, y0, 1))
         cases.append(('x=0 on curve', 0, P - y0, 1))
